@@ -773,17 +773,20 @@ class MultiStream(Stream):
                 data[:] = other_data
                 data[phase_index, IDs_index] = original_data[phase_index, IDs_index]
                 if remove:
-                    excluded_data = other_data[phase_index, IDs_index]
+                    original_other_data = other_data.copy() # Indexing with slices returns the rows themselves
                     other_data[:] = 0.
-                    other_data[phase_index, IDs_index] = excluded_data
+                    other_data[phase_index, IDs_index] = original_other_data[phase_index, IDs_index]
             else:
                 other_phase_index = self.imol.get_phase_index(other.phase)
                 data[other_phase_index, :] = other_data
                 data[phase_index, IDs_index] = original_data[phase_index, IDs_index]
-                if remove and (phase is ... or phase_index == other_phase_index):
-                    excluded_data = other_data[IDs_index]
-                    other_data[:] = 0.
-                    other_data[IDs_index] = excluded_data   
+                if remove:
+                    if phase is ... or phase_index == other_phase_index:
+                        original_other_data = other_data.copy() # Indexing with a slice returns the data itself
+                        other_data[:] = 0.
+                        other_data[IDs_index] = original_other_data[IDs_index]
+                    else: # Nothing in the other stream is excluded; everything was copied
+                        other_data[:] = 0.
         elif multiphase:
             data[phase_index, IDs_index] = other_data[phase_index, IDs_index]
             if remove: other_data[phase_index, IDs_index] = 0.
